@@ -432,7 +432,13 @@ class Lowering:
 
     def const_value(self, n):
         if n.get('kind') == 'ConstantExpr' and 'value' in n:
-            return int(n['value'])
+            v = str(n['value'])
+            if v in ('true', 'false'):
+                return 1 if v == 'true' else 0
+            try:
+                return int(v)
+            except ValueError:
+                raise Unsupported('constant expression with value %r' % v)
         if n.get('kind') == 'IntegerLiteral':
             return int(n['value'])
         if n.get('kind') == 'CXXBoolLiteralExpr':
